@@ -44,7 +44,10 @@ def render(items, indent=""):
             else:
                 out.append(f"{indent}{name} := {value}")
         elif k == "ref":
-            out.append(f"{indent}.dl {it[1]}")
+            if len(it) > 2 and it[2] == "op":
+                out.append(f"{indent}lda {it[1]}")      # inferred-width instruction operand
+            else:
+                out.append(f"{indent}.dl {it[1]}")
         elif k == "scope":
             _, kind, name, body, extra = it
             if kind == "block":
@@ -80,7 +83,7 @@ def macro_definitions(items, seen=None):
     return seen
 
 
-def evaluate(items, val, start_addr, advance):
+def evaluate(items, val, start_addr, advance, opwidth=2):
     """Walk the tree in emission order.
 
     val(hole) -> tag of a constant; labels get their address (start_addr, advance(addr, n)).
@@ -103,10 +106,11 @@ def evaluate(items, val, start_addr, advance):
                 else:
                     scope.defs[name] = val(value)
             elif k == "ref":
-                ev = ["ref", scope, it[1]]
+                isop = len(it) > 2 and it[2] == "op"
+                ev = ["opref" if isop else "ref", scope, it[1]]
                 events.append(ev)
                 fixups.append(ev)
-                addr[0] = advance(addr[0], 3)
+                addr[0] = advance(addr[0], 1 + opwidth if isop else 3)
             else:
                 _, kind, name, body, extra = it
                 if kind == "loop":
@@ -129,8 +133,8 @@ def evaluate(items, val, start_addr, advance):
     walk(items, root, False)
     out = []
     for ev in events:
-        if ev[0] == "ref":
-            out.append(("ref", ev[1].lookup(ev[2])))
+        if ev[0] in ("ref", "opref"):
+            out.append((ev[0], ev[1].lookup(ev[2])))
         else:
             out.append(tuple(ev))
     return out, labels
